@@ -54,12 +54,13 @@ def parseTAns (s : String) : Option TAns :=
   else if s = "other" then some .other
   else if s = "none" then some .none
   else if s = "ok" then some .ok
+  else if s = "panic" then some .panic
   else if s.startsWith "s:" then some (.val (.str (let r := (s.drop 2).toString; if r = "~" then "" else r)))
   else if s.startsWith "n:" then (s.drop 2).toString.toNat?.map fun n => .val (.u64 n)
   else none
 
 def showTAns : TAns → String
-  | .invalid => "invalid" | .other => "other" | .none => "none" | .ok => "ok"
+  | .invalid => "invalid" | .other => "other" | .none => "none" | .ok => "ok" | .panic => "panic"
   | .val (.str s) => "s:" ++ renStr s | .val (.u64 n) => s!"n:{n}"
 
 /-- statistics for the non-triviality rule -/
@@ -71,6 +72,8 @@ structure Stats where
                       -- sharing a textual prefix with the module's segment
   typed : Nat := 0
   mism : Nat := 0     -- typed accesses answered `invalid`
+  handles : Nat := 0  -- live handles opened
+  stale : Nat := 0    -- operations through a live handle answered with a panic (stale handle)
   f11b : Nat := 0     -- observations on configurations of the open class F11b
 
 def nearMiss : List Seg → Key → Bool
@@ -103,8 +106,35 @@ structure St where
   sim : Sim := {}
   cfgs : List Flat := []                         -- successfully included, in order
   touched : List (List Seg × Key) := []          -- (module, name) accessed through typed handles
-  fixed : List ((List Seg × Key) × Ty) := []     -- abstract typed-slot state
+  pstate : List ((List Seg × Key) × CfgSpec.PState) := []   -- abstract typed-slot state
+  live : List (String × (List Seg × Key × Handle)) := []    -- live handles by script name
   stats : Stats := {}
+
+/-- abstract state of a property; at the first access it is `configured` iff the included
+    configurations assign the name to the module (by the specification; by the model's store for
+    configurations outside the specified domain / in class F11b) -/
+def St.pstateOf (s : St) (path : List Seg) (k : Key) (ps : Props) : CfgSpec.PState :=
+  match s.pstate.find? (·.1 = (path, k)) with
+  | some e => e.2
+  | none =>
+    let dom := s.cfgs.all fun c => decide (CfgSpec.WF c) && !decide (CfgSpec.Clash c)
+    let assigned :=
+      if dom then (s.cfgs.flatMap fun c => CfgSpec.specKeys c path).contains k
+      else match ps.find k with
+        | some (.yaml _) => true
+        | _ => false
+    if assigned then .configured else .untyped
+
+/-- run the abstract rule over the accesses one implementation answer stands for -/
+def acceptAll (st : CfgSpec.PState) : List (CfgSpec.Acc × TAns) → Bool × CfgSpec.PState
+  | [] => (true, st)
+  | (a, ans) :: r =>
+    let (ok, st') := CfgSpec.typedAccept st a ans
+    if ok then acceptAll st' r else (false, st)
+
+def St.setPstate (s : St) (path : List Seg) (k : Key) (st : CfgSpec.PState) : St :=
+  { s with pstate := ((path, k), st) :: s.pstate.filter (·.1 != (path, k)),
+           touched := (path, k) :: s.touched }
 
 def runCase (c : Case) : String := Id.run do
   let h := words c.header
@@ -187,52 +217,139 @@ def runCase (c : Case) : String := Id.run do
               return s!"fail {id} op={i} kind=reject clause=capture tag={tagOf [flat]} line=[{line}] spec-names={want} model={m} impl={ans}"
           if ans != m then
             return s!"fail {id} op={i} kind=diverge tag={tagOf [flat]} line=[{line}] model={m} impl={ans}"
-    | op :: p :: key :: ty :: rest =>
+    | ["open", p, key, ty, name] =>
       let path := parseKey p
       let k := parseKey key
       match parseTy ty with
       | none => return bad
       | some t =>
-        let top : Option TOp :=
-          if op = "read" then some .read
-          else if op = "readd" then some .readd
-          else if op = "write" then
-            match t, rest with
-            | .str, [v] => some (.write (.str v))
-            | .u64, [v] => v.toNat?.map fun n => .write (.u64 n)
-            | _, _ => none
-          else none
-        match top with
+        match s.sim.props path with
+        | none =>
+          if ans != "nomod" then return s!"fail {id} op={i} kind=diverge line=[{line}] model=nomod impl={ans}"
+        | some ps =>
+          let (ps', r) := ps.openH k t
+          let ma : TAns := match r with
+            | .ok _ => .ok
+            | .error a => a
+          match parseTAns ans with
+          | none => return bad
+          | some ia =>
+            let pst := s.pstateOf path k ps
+            let (acc, pst') := CfgSpec.typedAccept pst (.openT t) ia
+            if !acc then
+              return s!"fail {id} op={i} kind=reject clause=typed-slot line=[{line}] state={repr pst} model={showTAns ma} impl={ans}"
+            if ia != ma then
+              return s!"fail {id} op={i} kind=diverge line=[{line}] model={showTAns ma} impl={ans}"
+            s := { (s.setPstate path k pst') with sim := s.sim.setProps path ps' }
+            match r with
+            | .ok h =>
+              s := { s with live := (name, (path, k, h)) :: s.live.filter (·.1 != name),
+                            stats := { s.stats with handles := s.stats.handles + 1 } }
+            | .error _ =>
+              s := { s with stats := { s.stats with mism := s.stats.mism + (if ia = .invalid then 1 else 0) } }
+    | ["clear", p, key] =>
+      let path := parseKey p
+      let k := parseKey key
+      match s.sim.props path with
+      | none =>
+        if ans != "nomod" then return s!"fail {id} op={i} kind=diverge line=[{line}] model=nomod impl={ans}"
+      | some ps =>
+        match parseTAns ans with
         | none => return bad
-        | some top =>
-          match s.sim.props path with
-          | none =>
-            if ans != "nomod" then return s!"fail {id} op={i} kind=diverge line=[{line}] model=nomod impl={ans}"
-          | some ps =>
-            let (ps', ma) := ps.typedOp k t top
-            match parseTAns ans with
-            | none => return s!"fail {id} op={i} kind=reject clause=typed-panics line=[{line}] model={showTAns ma} impl={ans}"
-            | some ia =>
-              -- abstract typed-slot rule
-              let fx := (s.fixed.find? (·.1 = (path, k))).map (·.2)
-              let (acc, fx') := CfgSpec.typedAccept fx t ia
-              if !acc then
-                return s!"fail {id} op={i} kind=reject clause=typed-slot line=[{line}] held={repr fx} model={showTAns ma} impl={ans}"
-              if ia != ma then
-                return s!"fail {id} op={i} kind=diverge line=[{line}] model={showTAns ma} impl={ans}"
-              let fixed' := match fx' with
-                | some t' => ((path, k), t') :: s.fixed.filter (·.1 != (path, k))
-                | none => s.fixed.filter (·.1 != (path, k))
-              s := { s with
-                sim := s.sim.setProps path ps'
-                touched := (path, k) :: s.touched
-                fixed := fixed'
-                stats := { s.stats with typed := s.stats.typed + 1,
-                                        mism := s.stats.mism + (if ia = .invalid then 1 else 0) } }
+        | some ia =>
+          let pst := s.pstateOf path k ps
+          let (acc, pst') := CfgSpec.typedAccept pst .clear ia
+          if !acc then
+            return s!"fail {id} op={i} kind=reject clause=typed-slot line=[{line}] state={repr pst} model=ok impl={ans}"
+          s := { (s.setPstate path k pst') with sim := s.sim.setProps path (ps.rawClear k) }
+    | hop :: name :: rest =>
+      if ["hget", "hdef", "hset", "hclear", "hdrop"].contains hop then
+        match s.live.find? (·.1 = name) with
+        | none => return s!"fail {id} op={i} kind=badline detail=[{line}] (handle not alive)"
+        | some (_, path, k, h) =>
+          let op? : Option HOp :=
+            if hop = "hget" then some .get
+            else if hop = "hdef" then some .orDefault
+            else if hop = "hclear" then some .clear
+            else if hop = "hdrop" then some .drop
+            else match h.ty, rest with
+              | .str, [v] => some (.set (.str v))
+              | .u64, [v] => v.toNat?.map fun n => .set (.u64 n)
+              | _, _ => none
+          match op?, s.sim.props path, parseTAns ans with
+          | some op, some ps, some ia =>
+            let (ps', ma, h') := ps.handleOp k h op
+            let acc : CfgSpec.Acc := match op with
+              | .get => .get h.ty
+              | .orDefault => .orDefault h.ty
+              | .set _ => .set h.ty
+              | .clear => .clear
+              | .drop => .drop
+            let pst := s.pstateOf path k ps
+            let (ok, pst') := CfgSpec.typedAccept pst acc ia
+            if !ok then
+              return s!"fail {id} op={i} kind=reject clause=typed-slot line=[{line}] handle={repr h} state={repr pst} model={showTAns ma} impl={ans}"
+            if ia != ma then
+              return s!"fail {id} op={i} kind=diverge line=[{line}] handle={repr h} model={showTAns ma} impl={ans}"
+            s := { (s.setPstate path k pst') with
+              sim := s.sim.setProps path ps'
+              live := match h' with
+                | some h' => (name, (path, k, h')) :: s.live.filter (·.1 != name)
+                | none => s.live.filter (·.1 != name)
+              stats := { s.stats with typed := s.stats.typed + 1,
+                                      stale := s.stats.stale + (if ia = .panic then 1 else 0) } }
+          | _, _, _ => return bad
+      else
+      match l with
+      | op :: p :: key :: ty :: rest =>
+        let path := parseKey p
+        let k := parseKey key
+        match parseTy ty with
+        | none => return bad
+        | some t =>
+          let top : Option TOp :=
+            if op = "read" then some .read
+            else if op = "readd" then some .readd
+            else if op = "write" then
+              match t, rest with
+              | .str, [v] => some (.write (.str v))
+              | .u64, [v] => v.toNat?.map fun n => .write (.u64 n)
+              | _, _ => none
+            else none
+          match top with
+          | none => return bad
+          | some top =>
+            match s.sim.props path with
+            | none =>
+              if ans != "nomod" then return s!"fail {id} op={i} kind=diverge line=[{line}] model=nomod impl={ans}"
+            | some ps =>
+              let (ps', ma) := ps.typedOp k t top
+              match parseTAns ans with
+              | none => return s!"fail {id} op={i} kind=reject clause=typed-panics line=[{line}] model={showTAns ma} impl={ans}"
+              | some ia =>
+                -- abstract typed-slot rule: the call is `prop::<T>` followed by one handle operation
+                let pst := s.pstateOf path k ps
+                let accs : List (CfgSpec.Acc × TAns) :=
+                  if ia = .invalid || ia = .other then [(.openT t, ia)]
+                  else [(.openT t, .ok),
+                        (match top with
+                         | .read => .get t
+                         | .readd => .orDefault t
+                         | .write _ => .set t, ia), (.drop, .ok)]
+                let (acc, pst') := acceptAll pst accs
+                if !acc then
+                  return s!"fail {id} op={i} kind=reject clause=typed-slot line=[{line}] state={repr pst} model={showTAns ma} impl={ans}"
+                if ia != ma then
+                  return s!"fail {id} op={i} kind=diverge line=[{line}] model={showTAns ma} impl={ans}"
+                s := { (s.setPstate path k pst') with
+                  sim := s.sim.setProps path ps'
+                  stats := { s.stats with typed := s.stats.typed + 1,
+                                          mism := s.stats.mism + (if ia = .invalid then 1 else 0) } }
+      | _ => return bad
     | _ => return bad
   let st := s.stats
   let nt := st.obs > 0 && st.wild > 0 && st.near > 0 && st.keys > 0
-  return s!"ok {id} nt={if nt then 1 else 0} ops={i} obs={st.obs} keys={st.keys} wild={st.wild} near={st.near} typed={st.typed} mismatch={st.mism} f11b={st.f11b}"
+  return s!"ok {id} nt={if nt then 1 else 0} ops={i} obs={st.obs} keys={st.keys} wild={st.wild} near={st.near} typed={st.typed} mismatch={st.mism} handles={st.handles} stale={st.stale} f11b={st.f11b}"
 
 def main (stdin : IO.FS.Stream) : IO Unit := do
   let cases ← readCases stdin
